@@ -204,13 +204,16 @@ def case_uniform_kept(cid, kind, rng, rounds, draws):
     return (ddgen.header(cid, kind, cap=1 << 12, cache=rng.choice([16, 1 << 8]), snap_each=True), ops)
 
 
-def run_stage(ctx, pid, cases, props, relation, tag="-kept", nshards=16, max_reports=2):
-    """lock-step run of kept-cache cases, shrink + report; returns (ok, bad)"""
+def run_stage(ctx, pid, cases, props, relation, tag="-kept", nshards=16, max_reports=2, harness=None, config="kept-cache", with_corpus=True):
+    """lock-step run of kept-cache cases, shrink + report; returns (ok, bad, cases).  `harness`: another build of
+    h_dd (the pointer-based manager), named by `config` in the replay files"""
     binp, drv = build(ctx)
+    if harness:
+        binp = harness
     args = ["--props", ",".join(props)]
     corpus_dir = os.path.join(vf.ROOT, "corpus", pid)
     corpus = []
-    if os.path.isdir(corpus_dir):
+    if with_corpus and os.path.isdir(corpus_dir):
         for fn in sorted(os.listdir(corpus_dir)):
             if fn.endswith(".kept"):
                 corpus += [("corpus-" + h, ops) for h, ops in vf.parse_cases(open(os.path.join(corpus_dir, fn)).read())]
@@ -232,16 +235,18 @@ def run_stage(ctx, pid, cases, props, relation, tag="-kept", nshards=16, max_rep
         hk = " ".join(t for t in header.split()[1:] if t.split("=")[0] in ("kind", "threads"))
         body = ";".join(small) if len(small) <= 30 else f"case-{cid}"
         vf.report_violation(
-            ctx, f"{kind}:{cls[0]}:{cls[1]}:{hk}:kept-cache:{body}",
-            {"stage": "correspondence", "kind": kind, "config": "kept-cache", "case_header": header, "ops": small,
+            ctx, f"{kind}:{cls[0]}:{cls[1]}:{hk}:{config}:{body}",
+            {"stage": "correspondence", "kind": kind, "config": config, "case_header": header, "ops": small,
              "verdict": smsg, "drv_args": args, "replay_cmd": f"./check {pid} --replay <this file>",
              "theorem_or_relation": relation},
             nfif=(kind != "prop"))
     return ok, bad, cases
 
 
-def replay(ctx, r):
+def replay(ctx, r, harness=None):
     binp, drv = build(ctx)
+    if harness:
+        binp = harness
     f = os.path.join(ctx.workdir, "replay.txt")
     vf.write_cases(f, [(r["case_header"], r["ops"])])
     ok, bad = vf.lockstep(ctx, binp, drv, f, tag="-replay", drv_args=r.get("drv_args", []))
